@@ -51,28 +51,28 @@ func topOf(s string) byte {
 func isEmptyBuf(s string) bool { return s == "" || s == "E" || s == "N" }
 
 type a2 struct {
-	r        *Run
-	p        *Prog
-	sep      bool // JSON: separator and empty-splice sub-rules apply
-	encNamed *types.Named
-	bufField map[*types.Named]string // carrier struct -> name of its []byte field
-	event    *types.Named
-	array    *types.Named
-	logger   *types.Named
-	context  *types.Named
-	ctxL     string // name of Context's Logger field
-	memo     map[string]map[string]a2exit
-	inprog   map[string]bool
-	alias    map[*ssa.Function]int
-	aliasBusy map[*ssa.Function]bool
-	reported map[string]bool
+	r          *Run
+	p          *Prog
+	sep        bool // JSON: separator and empty-splice sub-rules apply
+	encNamed   *types.Named
+	bufField   map[*types.Named]string // carrier struct -> name of its []byte field
+	event      *types.Named
+	array      *types.Named
+	logger     *types.Named
+	context    *types.Named
+	ctxL       string // name of Context's Logger field
+	memo       map[string]map[string]a2exit
+	inprog     map[string]bool
+	alias      map[*ssa.Function]int
+	aliasBusy  map[*ssa.Function]bool
+	reported   map[string]bool
 	spliceSafe int // 0 unknown 1 safe 2 unsafe
-	nSumm    int
-	nCfg     int
-	nTrans   int
-	rawSites int
-	recursion bool
-	ruleName string
+	nSumm      int
+	nCfg       int
+	nTrans     int
+	rawSites   int
+	recursion  bool
+	ruleName   string
 }
 
 type a2exit struct {
